@@ -13,7 +13,13 @@ def run(tier, replay=None):
     for m in mism:
         d = m["doc"]
         run.mismatch({"kind": m["mismatch"]["what"], "x": d["x"], "c": d["c"], "dv": d["dv"]}, m)
-    run.evaluations = len(cases) * 3
+    # growth beyond the property: the deserializer registry the loaders rely on (Registry.tla)
+    reg_cases, reg_mism, _, _ = C.emit_and_replay(run, "MC_Registry", "MC_Registry.cfg", "c14_registry", ["registry"],
+                                                  timeout=1200, workers=8)
+    for m in reg_mism:
+        run.mismatch({"kind": "registry: " + m["mismatch"]["what"]}, m)
+    run.extra = {"registry_histories": len(reg_cases)}
+    run.evaluations = len(cases) * 4
     run.nontrivial = sum(1 for c in cases if c["class"] != "loaded")
     classes = {c["class"] for c in cases}
     if not run.mismatches and classes != {"loaded", "partial", "rejected"}:
